@@ -72,7 +72,36 @@ def main(tier: str) -> int:
         behs, _ = producer.simulate(c, num=(3 if tier == "quick" else 15), seed=seed + 100, hist_len=12)
         for beh in behs[: (2 if tier == "quick" else 10)]:
             streams.append((f"reference:{name}", producer.to_bytes(producer.frames_of(beh["rows"]), True), "rdflib"))
+    # a frame larger than the 1 MiB read chunk of the frame reader, ending in a long literal: cuts inside the later chunks
+    big = ("lit", "L" * (1_400_000 if tier == "quick" else 2_300_000), "", "")
+    I_ = lambda x: ("iri", x)  # noqa: E731
+    big_stmts = [(I_("http://e/s1"), I_("http://e/p"), ("lit", "first", "", "")), (I_("http://e/s2"), I_("http://e/p"), big),
+                 (I_("http://e/s3"), I_("http://e/p"), ("lit", "after", "", ""))]
+    big_data = impl.serialize(impl.default_cfg(integ="generic", entry="flat_to_file", sclass="triple", ltype=1, frame_size=2, preset=(8, 4, 0)), big_stmts)
+    big_frames = wire.dec_delimited(big_data)
+    big_ends = [e for _, _, e in wire.frame_extents(big_data)]
+    big_counts = producer.denoting_per_frame(big_frames)
+    big_full, _ = drain("generic", big_data)
+    big_cuts = sorted({c for c in list(range(0, len(big_data), 131_072)) + [2**20 - 1, 2**20, 2**20 + 1, 2**20 + 70_000, len(big_data) - 2, len(big_data) - 1, len(big_data)]
+                       + [e for e in big_ends] + [e - 1 for e in big_ends] if 0 <= c <= len(big_data)})
+    big_records = []
+    for cut in big_cuts:
+        for source in ("BytesIO", "non-seekable"):
+            src = io.BytesIO(big_data[:cut]) if source == "BytesIO" else framing.ChunkedRaw(big_data[:cut], [], then=65_536)
+            from pyjelly.integrations.generic import parse as gp  # noqa: PLC0415
+            got, exc = [], None
+            try:
+                for x in gp.parse_jelly_flat(src):
+                    got.append(terms.item_from_generic(x))
+            except Exception as ex:  # noqa: BLE001
+                exc = f"{type(ex).__name__}: {str(ex)[:80]}"
+            big_records.append((cut, source, got, exc))
     records, meta = [], []
+    for cut, source, got, exc in big_records:
+        rec = {"id": len(records), "ends": big_ends, "counts": big_counts, "cut": cut, "yielded": len(got),
+               "prefixOK": [terms.norm_item(x) for x in got] == [terms.norm_item(x) for x in big_full[:len(got)]], "outcome": "raise" if exc else "eof"}
+        records.append(rec)
+        meta.append((f"pyjelly:large-frame/{source}", "generic", big_data[:64] + b"...", cut, exc))
     for label, data, also in streams:
         frames = wire.dec_delimited(data)
         ends = [e for _, _, e in wire.frame_extents(data)]
@@ -103,7 +132,7 @@ def main(tier: str) -> int:
         if v["verdict"] != "ok":
             run.violation({"clause": v["verdict"], "integ": integ, "cut_class": where},
                           f"stream cut at byte {cut}/{len(data)} ({where}): parser yielded {rec['yielded']} items ({v['verdict']}), then {rec['outcome']}",
-                          {"stream": label, "cut": cut, "hex": data.hex(), "frame_ends": rec["ends"], "items_per_frame": rec["counts"], "exception": exc})
+                          {"stream": label, "cut": cut, "hex": data.hex()[:4000], "frame_ends": rec["ends"], "items_per_frame": rec["counts"], "exception": exc})
         elif v["expect"] != rec["outcome"] and cut >= 3:
             run.model_drift(f"cut {cut} ({where}) of {label}: expected the parser to {v['expect']}, it did {rec['outcome']}")
         if len(samples) < 3 and where == "inside-length-or-payload" and rec["yielded"] > 0:
